@@ -36,7 +36,7 @@ func All() []*Info {
 	ed := edwards25519.NewBlakeSHA256Ed25519()
 	cs := circl.NewSuite()
 	return []*Info{
-		{Name: "ed25519", Family: "ed25519", Group: ed, Order: OrderEd25519, ScalarLE: true, ScalarTy: "ed25519-limb", CanBase: true, CanPick: true, CanEmbed: true},
+		{Name: "ed25519", Family: "ed25519", Group: ed, Order: OrderEd25519, ScalarLE: true, ScalarTy: "ed25519-limb", UnreducedOK: true, CanBase: true, CanPick: true, CanEmbed: true},
 		{Name: "circl-g1", Family: "bls12381", Sort: "G1", Group: cs.G1(), Order: OrderBLS, ScalarTy: "circl", CanBase: true, CanPick: true, Suite: cs, SuiteKey: "circl"},
 		{Name: "circl-g2", Family: "bls12381", Sort: "G2", Group: cs.G2(), Order: OrderBLS, ScalarTy: "circl", CanBase: true, CanPick: true, Suite: cs, SuiteKey: "circl"},
 		{Name: "circl-gt", Family: "bls12381", Sort: "GT", Group: cs.GT(), Order: OrderBLS, ScalarTy: "circl", CanBase: true, Slow: true, Suite: cs, SuiteKey: "circl"},
